@@ -265,7 +265,7 @@ def c18_5(ctx):
     src_p = ast.unparse(rl.get(ctx, "compactfilter:pack_bits")[1])
     src_u = ast.unparse(rl.get(ctx, "compactfilter:unpack_bits")[1])
     mod, fn = rl.get(ctx, "compactfilter:pack_bits")
-    p_ok = "result <<= 1" in src_p and "-num_bytes % 8" in src_p and "'big'" in src_p
+    p_ok = "result <<= 1" in src_p and "-num_bytes % 8" in src_p and ("'big'" in src_p or "int_to_big_endian(" in src_p)
     u_ok = ("byte & 128" in src_u or "byte & 0x80" in src_u) and "byte <<= 1" in src_u
     if p_ok and u_ok:
         out.append(ctx.ok("compactfilter:pack_bits↔unpack_bits", "bits are packed MSB-first with zero padding to a byte boundary; unpacking tests 0x80 and shifts left", fn, mod, key="pack"))
